@@ -81,12 +81,20 @@ func IsContextSpecificTag(tagLength *TagLength) bool {
 	return false
 }
 
+// maxPrimitiveLength is the largest content length of a primitive value (time, bit string, octet string,
+// integer) that is read into memory in one piece. It matches the limit ReadStruct applies to structures.
+const maxPrimitiveLength = 81920
+
 func ReadUtcTime(reader Asn1Reader) (*time.Time, error) {
 	lastUpdateUtcTag, err := ReadTagLength(reader)
 	if err != nil {
 		return nil, err
 	}
 	err = ExpectTag(lastUpdateUtcTag.Tag, asn1.TagUTCTime)
+	if err != nil {
+		return nil, err
+	}
+	err = ExpectLengthNotGreater(big.NewInt(maxPrimitiveLength), &lastUpdateUtcTag.Length.Length)
 	if err != nil {
 		return nil, err
 	}
@@ -107,6 +115,10 @@ func ParseBitString(reader Asn1Reader) (*BitString, error) {
 		return nil, err
 	}
 	err = ExpectTag(asn1crypto.BIT_STRING, tagLength.Tag)
+	if err != nil {
+		return nil, err
+	}
+	err = ExpectLengthNotGreater(big.NewInt(maxPrimitiveLength), &tagLength.Length.Length)
 	if err != nil {
 		return nil, err
 	}
@@ -135,6 +147,10 @@ func ParseOctetString(reader Asn1Reader) (ret []byte, err error) {
 		return nil, err
 	}
 	err = ExpectTag(asn1crypto.OCTET_STRING, tagLength.Tag)
+	if err != nil {
+		return nil, err
+	}
+	err = ExpectLengthNotGreater(big.NewInt(maxPrimitiveLength), &tagLength.Length.Length)
 	if err != nil {
 		return nil, err
 	}
@@ -375,6 +391,10 @@ func ReadBigInt(reader Asn1Reader) (*big.Int, error) {
 		return nil, err
 	}
 	err = ExpectTag(asn1.TagInteger, tagLength.Tag)
+	if err != nil {
+		return nil, err
+	}
+	err = ExpectLengthNotGreater(big.NewInt(maxPrimitiveLength), &tagLength.Length.Length)
 	if err != nil {
 		return nil, err
 	}
